@@ -46,16 +46,16 @@ def normC : Option String → Option String
 def Stmt.col : Stmt → Option String
   | .nullable _ c _ | .type_ _ c _ _ | .default _ c _ | .rename _ c _ | .comment _ c _
   | .mysqlChange _ c _ _ _ _ _ _ | .mysqlModify _ c _ _ _ _ _ | .mssqlAlter _ c _ _
-  | .mssqlAddDefault _ c _ | .mssqlDropDefault _ _ c | .identityAdd _ c _ _ | .identityDrop _ c
-  | .identityAlter _ c _ _ | .identitySet _ c _ _ => some c
+  | .mssqlAddDefault _ c _ | .mssqlDropDefault _ _ c | .identityAdd _ c _ _ _ | .identityDrop _ c
+  | .identityAlter _ c _ _ _ | .identitySet _ c _ _ _ => some c
   | .dropConstraint _ _ | .addConstraint _ _ _ => none
 
 /-- the table reference a statement carries -/
 def Stmt.tref : Stmt → TRef
   | .nullable t _ _ | .type_ t _ _ _ | .default t _ _ | .rename t _ _ | .comment t _ _
   | .mysqlChange t _ _ _ _ _ _ _ | .mysqlModify t _ _ _ _ _ _ | .mssqlAlter t _ _ _
-  | .mssqlAddDefault t _ _ | .mssqlDropDefault t _ _ | .identityAdd t _ _ _ | .identityDrop t _
-  | .identityAlter t _ _ _ | .identitySet t _ _ _ | .dropConstraint t _ | .addConstraint t _ _ => t
+  | .mssqlAddDefault t _ _ | .mssqlDropDefault t _ _ | .identityAdd t _ _ _ _ | .identityDrop t _
+  | .identityAlter t _ _ _ _ | .identitySet t _ _ _ _ | .dropConstraint t _ | .addConstraint t _ _ => t
 
 /-- effect of a statement on the column it names -/
 def effect (s : ColState) : Stmt → ColState
@@ -74,14 +74,15 @@ def effect (s : ColState) : Stmt → ColState
   -- the constraint is looked up by (object_id literal, col_name literal) and dropped on `t`: the batch only drops
   -- the column's default when the looked-up table is the altered one (the column literal is checked by `applyStmt`)
   | .mssqlDropDefault t obj _ => if obj = t then { s with default := none } else s
-  | .identityAdd _ _ a st => { s with default := some (.identity a st) }
+  | .identityAdd _ _ a st e => { s with default := some (.identity a st e) }
   | .identityDrop _ _ => { s with default := none }
-  | .identityAlter _ _ sa ss =>
+  -- the options that are SET come first (they take precedence over the old values of the same attribute)
+  | .identityAlter _ _ sa ss se =>
     match s.default with
-    | some (.identity a st) =>
-      { s with default := some (.identity (sa.getD a) (match ss with | some v => some v | none => st)) }
+    | some (.identity a st e) =>
+      { s with default := some (.identity (sa.getD a) (match ss with | some v => some v | none => st) (se ++ e)) }
     | _ => s
-  | .identitySet _ _ a st => { s with default := some (.identity a st) }
+  | .identitySet _ _ a st e => { s with default := some (.identity a st e) }
   | .dropConstraint _ _ => s
   | .addConstraint _ _ _ => s
 
@@ -113,9 +114,9 @@ def agrees (r : Req) (s : ColState) : Bool :=
 
 /-- the final default is the requested one (an unspecified identity `start` is unconstrained) -/
 def defaultIs (fin : Option DefVal) : DefVal → Bool
-  | .identity a st =>
+  | .identity a st e =>
     match fin with
-    | some (.identity a' st') => a' == a && (st.isNone || st' == st)
+    | some (.identity a' st' e') => a' == a && (st.isNone || st' == st) && e.all (fun kv => e'.contains kv)
     | _ => false
   | v => fin == some v
 
@@ -226,19 +227,19 @@ def constraintComplete (d : Dialect) (r : Req) (o : Out) : Bool :=
 /-- PostgreSQL identity transitions the dialect can express -/
 def pgIdentityOk (r : Req) : Bool :=
   match r.serverDefault, r.exDefault with
-  | .set (.identity _ _), .drop => true
-  | .set (.identity _ _), .set (.identity _ _) => true
-  | .drop, .set (.identity _ _) => true
-  | .unset, .set (.identity _ _) => true
+  | .set (.identity _ _ _), .drop => true
+  | .set (.identity _ _ _), .set (.identity _ _ _) => true
+  | .drop, .set (.identity _ _ _) => true
+  | .unset, .set (.identity _ _ _) => true
   | _, _ => false
 
 /-- Oracle identity transitions the dialect can express -/
 def oracleIdentityOk (r : Req) : Bool :=
   match r.serverDefault, r.exDefault with
-  | .set (.identity _ _), .set (.computed _) => false
-  | .set (.identity _ _), _ => true
-  | .drop, .set (.identity _ _) => true
-  | .unset, .set (.identity _ _) => true
+  | .set (.identity _ _ _), .set (.computed _) => false
+  | .set (.identity _ _ _), _ => true
+  | .drop, .set (.identity _ _ _) => true
+  | .unset, .set (.identity _ _ _) => true
   | _, _ => false
 
 /-- **Expressible requests** (a sufficient condition, stated without looking at the algorithm): the
